@@ -540,10 +540,14 @@ pub assume_specification<T, E> [std::result::Result::<T, E>::unwrap_or] (res: st
     ensures r == (match res { Ok(v) => v, Err(_) => default });
 pub assume_specification<T: Default, E> [std::result::Result::<T, E>::unwrap_or_default] (res: std::result::Result<T, E>) -> (r: T)
     ensures res matches Ok(v) ==> r == v;
-// [A-option-as-deref] Option::as_deref (only the Some/None shape is specified)
+// [A-option-as-deref] Option::as_deref: Some/None shape, and the target of the reference is `Deref::deref` of the content
 pub assume_specification<T> [std::option::Option::<T>::as_deref] (o: &std::option::Option<T>) -> (r: std::option::Option<&<T as std::ops::Deref>::Target>)
     where T: std::ops::Deref,
-    ensures (r is Some) == (o is Some);
+    ensures (r is Some) == (o is Some), r matches Some(x) ==> x == deref_target(&o->Some_0);
+// what `Deref::deref` gives (uninterpreted); for String it is the same text ([A-string-deref])
+pub uninterp spec fn deref_target<T: std::ops::Deref>(t: &T) -> &<T as std::ops::Deref>::Target;
+pub broadcast axiom fn axiom_string_deref(s: &String)
+    ensures (#[trigger] deref_target::<String>(s))@ == s@;
 // [A-unwrap-or-else] Result::unwrap_or_else
 pub assume_specification<T, E, F> [std::result::Result::<T, E>::unwrap_or_else] (res: std::result::Result<T, E>, f: F) -> (o: T)
     where F: std::ops::FnOnce(E,) -> T + std::marker::Destruct,
